@@ -215,10 +215,11 @@ def _make_profile(aa, spec, stacked, log):
     """a user class whose method is evaluated through @over_sample (optionally stacked on @to_array)"""
     from autoarray.operators.over_sampling.decorator import over_sample
 
-    def body(obj, grid, *args, **kwargs):
+    def body(obj, grid, gain=1.0, *args, offset=0.0, **kwargs):
+        # "any user function": one whose values depend on further positional and keyword arguments of the call
         g = np.array(grid, dtype=float).reshape(-1, 2)
         log.append(g.shape[0])
-        return _f(spec, g)
+        return gain * _f(spec, g) + offset
 
     class Profile:
         centre = (0.0, 0.0)
@@ -277,7 +278,16 @@ def decorator_uniform(mask, pixel_scales, origin, sub, as_int, spec, stacked, ro
         plain = _f(spec, _centres(mask, pixel_scales, origin))
         return "pixel %d (sub %d): decorator gives %r, mean over its sub-pixels is %r (plain centre value %r)" % (
             k, sub[k], gv[k], want[k], plain[k])
+    # the same call with arguments that change the function's values (the mean is linear: gain * mean + offset)
+    for label, a, kw in (("f(grid, 2.5)", (2.5,), {}), ("f(grid, offset=-1.25)", (), {"offset": -1.25}),
+                         ("f(grid, gain=-0.5, offset=3.0)", (), {"gain": -0.5, "offset": 3.0})):
+        got2 = prof.image_2d_from(grid, *a, **kw)
+        g2 = np.asarray(got2.slim if hasattr(got2, "slim") else got2, dtype=float)
+        w2 = (a[0] if a else kw.get("gain", 1.0)) * want + kw.get("offset", 0.0)
+        if g2.shape != (n,) or not _close(g2, w2):
+            return "call %s through the decorator: result %r, binned values of the function WITH these arguments %r" % (label, g2, w2)
     if max(sub) == 1 and route == 0:
+        log[:] = log[:1]
         if not _close(gv, _f(spec, _centres(mask, pixel_scales, origin))):
             return "sub-size one does not give the plain evaluation at pixel centres"
         if log != [n]:
